@@ -26,6 +26,11 @@ func init() { core.Register(c10{}) }
 
 func (c10) ID() string { return "C10" }
 
+// EvalFeatures names the counters of judged executions.
+func (c10) EvalFeatures() []string {
+	return []string{"commands-executed", "real-timing-commands", "wait-commands"}
+}
+
 func (c10) Race() bool { return true }
 
 func (c10) Cases(tier string) int {
